@@ -390,6 +390,30 @@ def _run(ctx, pq):
             ctx.count("F.op", o)
         for kd in case["dist"]["kinds"]:
             ctx.count("F.partition_kind", kd)
+    # ---------------------------------------------------------------- F2: the generic handle-program runner (harness/handleprog.py, w3-reads)
+    # on PARTITIONED hive datasets: derivations (slices, picks, pickle, copy, deepcopy) and failed appends that stream F does not have,
+    # appended rows bringing partition values that sort between the existing ones; every observer answer of a live handle (rows, partition
+    # cells, categories, dtypes) against a fresh handle of the same state.  Stream F stays: it has the partition kinds (text, float, time,
+    # categorical, bool), the drill layout, row labels and the comparison with the rows written / read_model that the generic runner lacks.
+    from harness import handleprog as HP
+    hp_jobs = []
+    for _ in range(6 if quick else 40):
+        ds = HP.gen_dataset(rng, {"scheme": "hive", "part": True})
+        hp_jobs.append({"ds": ds, "progs": [HP.gen_program(rng, ds) for _ in range(3 if quick else 6)], "inventory": None, "aimed": False})
+    for job, r in zip(hp_jobs, C.pmap(HP.run_job, hp_jobs, init=HP._winit, nproc=6, job_timeout=300)):
+        if isinstance(r, dict) and "__crashed__" in r:
+            ctx.fail({"stream": "handleprog", "stage": "crash"}, {"handle_program": {"ds": job["ds"], "prog": job["progs"][0]}},
+                     "running handle programs on this dataset: " + r["__crashed__"])
+            continue
+        for pr in r["results"]:
+            if pr["error"]:
+                raise RuntimeError("handle program harness error: %s" % pr["error"])
+            case = {"handle_program": {"ds": r["ds"], "prog": pr["prog"]}}
+            ctx.case(case, trivial=False)
+            ctx.count("F2.steps", len(pr["prog"]))
+            if pr["result"]["problems"]:
+                ctx.fail(dict(HP.classify(r["ds"], pr["prog"], pr["result"]["problems"]), stream="handleprog"), case,
+                         "; ".join("step %d (%s): %s" % (k, w, t) for w, k, t in pr["result"]["problems"][:3]))
     # ---------------------------------------------------------------- extraction vs kernel on a sample of the commands above
     fixed = [("write_model", True, [b"k", b"n"],
               [[[[[[2, b"a"]], [[0, 5]]], 0], [[[[2, b"b"]], []], 1]], [[[[[2, b"a"]], [[0, -7]]], 2], [[[[2, b"a"]], [[0, 5]]], 3]]]),
@@ -1231,10 +1255,13 @@ def replay(rep):
         first = (rep.get("no_longer_checks") or [{}])[0]
         print(json.dumps(rep, indent=1, default=repr)[:5000])
         case = first.get("detail", {}).get("case") if isinstance(first.get("detail"), dict) else None
-        if not (isinstance(case, dict) and ("frame" in case or "prog" in case)):
+        if not (isinstance(case, dict) and ("frame" in case or "prog" in case or "handle_program" in case)):
             return 1
     else:
         case = rep["case"]
+    if "handle_program" in case:
+        from harness import handleprog as HP
+        return HP.replay_case(case["handle_program"])
     if "prog" in case:
         return _replay_handle(case)
     if "frame" not in case:
